@@ -88,6 +88,8 @@ func (o c13Op) String() string {
 		return s
 	case "rebuild":
 		return fmt.Sprintf("BuildExpr(%q) replaces the compiled object", c13Menu[o.Expr])
+	case "exec-nobind":
+		return fmt.Sprintf("Exec(%q from %s) without bindings", c13Menu[o.Expr], c13Ctx[o.Ctx])
 	}
 	return o.Kind
 }
@@ -279,6 +281,13 @@ func (w *c13World) apply(o c13Op) (Outcome, string) {
 		return Outcome{Type: "string", Str: fmt.Sprint(out, err)}, ""
 	}
 	ctx := w.b.ToCur[w.b.Doc.Resolve(c13Ctx[o.Ctx])]
+	if o.Kind == "exec-nobind" {
+		out := ExecImpl(w.b, ctx, w.exprs[o.Expr], nil)
+		if out.Err {
+			out.ErrText = ""
+		}
+		return out, ""
+	}
 	res := ExecImpl(w.b, ctx, w.exprs[o.Expr], w.settings())
 	if o.Store >= 0 && res.Type == "node-set" && !res.Err {
 		// re-run to obtain the real slice (ExecImpl converts); store the caller's copy
@@ -310,6 +319,11 @@ func c13Ops() []c13Op {
 		ops = append(ops, c13Op{Kind: "exec", Expr: e, Ctx: 0, Store: 0}, c13Op{Kind: "exec", Expr: e, Ctx: 0, Store: 1}, c13Op{Kind: "exec", Expr: e, Ctx: 0, Store: 0, Trunc: true}, c13Op{Kind: "exec", Expr: e, Ctx: 1, Store: 1, Trunc: true})
 	}
 	ops = append(ops, c13Op{Kind: "unmarshal-slice"}, c13Op{Kind: "unmarshal-struct"}, c13Op{Kind: "rebuild", Expr: 2}, c13Op{Kind: "rebuild", Expr: 6})
+	// the same compiled expressions executed WITHOUT any binding: what an earlier
+	// call bound must not be visible (unbound variable / prefix -> error)
+	for _, e := range []int{2, 4, 7, 34} {
+		ops = append(ops, c13Op{Kind: "exec-nobind", Expr: e, Ctx: 0, Store: -1})
+	}
 	return ops
 }
 
